@@ -8,6 +8,7 @@ import (
 	"sync"
 
 	"github.com/sdcio/yang-parser/xpath"
+	"github.com/sdcio/yang-parser/xpath/xutils"
 	"github.com/sdcio/yang-parser/xpath/grammars/expr"
 )
 
@@ -37,6 +38,11 @@ func genYConc(r *Rng, tier string, n int, emit func(Case)) {
 				subs = append(subs, map[string]any{"k": "rm", "s": pick(r, words) + pick(r, words), "p": pick(r, words)})
 			}
 		}
+		// a union of node sets the tree hands out as slices of its own arrays: the result is a new set, the arrays stay as they are
+		if r.Chance(30) {
+			ns := []string{"nsa", "nsb", "nsc"}
+			subs = append(subs, map[string]any{"k": "un", "a": pick(r, ns), "b": pick(r, ns)})
+		}
 		emit(Case{"k": "yconc", "subs": subs})
 	}
 }
@@ -48,6 +54,22 @@ type concJob struct {
 }
 
 func subJob(sub map[string]any) concJob {
+	if cstr(sub, "k") == "un" {
+		run := func(m *xpath.Machine) string {
+			tree := &mockTree{hash: true, backing: map[string][]xutils.XpathNode{}}
+			res := xpath.NewCtxFromCurrent(gocontext.Background(), m, &mockEntry{t: tree}).Run()
+			if res.GetError() != nil {
+				return "un:error " + firstLine(res.GetError().Error())
+			}
+			for _, b := range tree.backing {
+				if b[:cap(b)][1] != nil {
+					return "un:TREE-WRITTEN"
+				}
+			}
+			return "un:tree-untouched"
+		}
+		return concJob{"count(../" + cstr(sub, "a") + " | ../" + cstr(sub, "b") + "/x/nsd)", run, func(m *xpath.Machine, k int) { run(m) }}
+	}
 	if cstr(sub, "k") == "rm" {
 		run := func(m *xpath.Machine) string {
 			res := xpath.NewCtxFromCurrent(gocontext.Background(), m, &mockEntry{t: &mockTree{hash: true}}).Run()
@@ -70,7 +92,14 @@ func subJob(sub map[string]any) concJob {
 		}}
 	}
 	b, _ := hex.DecodeString(cstr(sub, "hex"))
-	return concJob{string(b), func(m *xpath.Machine) string { return runPathOnce(m, 0, "") },
+	pair := cstr(sub, "mode") == "pair"
+	return concJob{string(b), func(m *xpath.Machine) string {
+		out := runPathOnce(m, 0, "")
+		if i := strings.Index(out, " => "); pair && i >= 0 {
+			out = "pair:" + out[:i] // (two paths under one operator: the requests, see stream c02)
+		}
+		return out
+	},
 		func(m *xpath.Machine, k int) { runPathOnce(m, k, "") }}
 }
 
@@ -84,7 +113,7 @@ func runYConc(c Case) string {
 	for i, j := range jobs {
 		m, err := expr.NewExprMachine(j.text, nil)
 		if err != nil {
-			if k := cstr(carr(c, "subs")[i].(map[string]any), "k"); k == "c01" || k == "rm" {
+			if k := cstr(carr(c, "subs")[i].(map[string]any), "k"); k == "c01" || k == "rm" || k == "un" {
 				iso[i] = "compile-error:" + firstLine(err.Error())
 			} else {
 				iso[i] = "build:" + canonBuild(j.text, nil, err, false)
